@@ -29,6 +29,7 @@ type c07Req struct {
 	Limit2  int    `json:"header_received_limit"` // 0: none
 	Codec   string `json:"codec"`
 	Cuts    int    `json:"cuts"`
+	Expect  bool   `json:"expect_100_continue,omitempty"` // the body is read after the server's 100 Continue: the same limits apply
 	Warm    bool   `json:"preceded_by_request_with_large_limit,omitempty"` // same connection: an earlier request was granted a 10 MB limit through HeaderReceived
 }
 
@@ -81,6 +82,7 @@ func scenC07(e *Env) func() {
 			}
 		}
 		r.Warm = p.Mode == "server" && r.Kind != "head" && e.Chance(25)
+		r.Expect = p.Mode == "server" && r.Kind == "body" && e.Chance(25)
 		p.Reqs = append(p.Reqs, r)
 	}
 	if p.Mode == "client" {
@@ -225,6 +227,9 @@ func c07Server(e *Env, p *c07Plan) {
 		}
 		var head, body []byte
 		hdr := fmt.Sprintf("X-Pad: x\r\n")
+		if r.Expect {
+			hdr += "Expect: 100-continue\r\n"
+		}
 		if r.Limit2 > 0 {
 			hdr += fmt.Sprintf("X-Limit: %d\r\n", r.Limit2)
 		}
@@ -314,6 +319,9 @@ func c07Server(e *Env, p *c07Plan) {
 		<-wdone
 		if r.Warm && len(ex.Resps) > 0 {
 			ex.Resps = ex.Resps[1:] // the warm-up request's response
+		}
+		for len(ex.Resps) > 0 && ex.Resps[0].Status >= 100 && ex.Resps[0].Status < 200 {
+			ex.Resps = ex.Resps[1:] // 100 Continue
 		}
 		e.Ob(1)
 		e.Nontrivial = true
